@@ -28,9 +28,9 @@ theorem C12_finished_released (base : Nat) (h : History) (i : Nat) (c : Cfg) (p 
   rw [hl] at this
   exact (this.fin hf rfl).1
 
-/-- the same with the hypothesis discharged, for every history without `flush` / `gather_and_close` / `until_closed`:
+/-- the same with the hypothesis discharged, for every history without `gather_and_close` (any number of concurrent `flush` calls included):
 whatever fails — workers, call sites, callbacks — every finished task has handed back its slot -/
-theorem C12_finished_released_all (base : Nat) (h : History) (hn : ∀ x ∈ h, x.admits noAsync = true) (i : Nat) (c : Cfg)
+theorem C12_finished_released_all (base : Nat) (h : History) (hn : ∀ x ∈ h, x.admits noGac = true) (i : Nat) (c : Cfg)
     (p : Pool) (hc : ((World.init base).run h).cfgs[i]? = some c) (hp : ((World.init base).run h).pools[i]? = some p)
     (t : Nat) (tk : PTask) (ht : p.tasks[t]? = some tk) (hf : tk.phase = .finished) : tk.released = true :=
   C12_finished_released base h i c p hc hp (strictAll base h hn i c p hc hp).1 t tk ht hf
